@@ -1,9 +1,9 @@
 /-
 Specification of C37 (candidate address list of a peer), independent of the code's comparator cascade.
 
-The list is the duplicate-free enumeration, in increasing `key` order, of every address that some source
+The list is the duplicate-free enumeration, in increasing `before` order, of every address that some source
 currently contributes (learned and reported entries of every owner, resolved addresses admitted by the
-filter) and that is not blocked. `key` orders: preferred ranges first; inside each group IPv6, then public
+filter) and that is not blocked. `before` orders: preferred ranges first; inside each group IPv6, then public
 IPv4, then private IPv4; then by address; then by port.
 Core Lean only.
 -/
@@ -16,11 +16,15 @@ open Nebula.Net Nebula.RemoteList
 def famClass (a : Addr) : Nat :=
   if a.fam == .v6 then 0 else if isPrivate4 a then 2 else 1
 
-/-- sort key (addresses are below 2^128, ports below 2^16). -/
-def key (pref : List Prefix) (a : AP) : Nat :=
-  (((if isPreferred a.addr pref then 0 else 1) * 3 + famClass a.addr) * 2 ^ 128 + a.addr.val) * 2 ^ 16 + a.port
+/-- group: preferred ranges first; inside each, IPv6, public IPv4, private IPv4. -/
+def group (pref : List Prefix) (a : AP) : Nat :=
+  (if isPreferred a.addr pref then 0 else 1) * 3 + famClass a.addr
 
-def AP.WF (a : AP) : Prop := a.addr.WF ∧ a.port < 2 ^ 16
+/-- `a` comes strictly before `b`: by group, then address, then port. -/
+def before (pref : List Prefix) (a b : AP) : Bool :=
+  decide (group pref a < group pref b) ||
+    (group pref a == group pref b &&
+      (decide (a.addr.val < b.addr.val) || (a.addr.val == b.addr.val && decide (a.port < b.port))))
 
 /-- what the sources contribute right now. -/
 def sources (r : RL) (shouldAdd : Option (List Addr → Addr → Bool)) : List AP :=
@@ -33,21 +37,19 @@ def candidates (r : RL) (shouldAdd : Option (List Addr → Addr → Bool)) : Lis
 
 /-- `l` is the candidate list demanded by the property. -/
 def IsCandidateList (pref : List Prefix) (cands : List AP) (l : List AP) : Prop :=
-  l.Nodup ∧ (∀ x, x ∈ l ↔ x ∈ cands) ∧ l.Pairwise (fun a b => key pref a < key pref b)
+  l.Nodup ∧ (∀ x, x ∈ l ↔ x ∈ cands) ∧ l.Pairwise (fun a b => before pref a b = true)
 
 /-- executable reference: insertion into a strictly increasing list. -/
-def insertSorted {α : Type} (k : α → Nat) (x : α) : List α → List α
+def insertSorted {α : Type} [DecidableEq α] (lt : α → α → Bool) (x : α) : List α → List α
   | [] => [x]
-  | y :: ys => if k x < k y then x :: y :: ys else if k x = k y then y :: ys else y :: insertSorted k x ys
+  | y :: ys => if x = y then y :: ys else if lt x y then x :: y :: ys else y :: insertSorted lt x ys
 
-def refList (pref : List Prefix) (cands : List AP) : List AP := cands.foldr (insertSorted (key pref)) []
+def refList (pref : List Prefix) (cands : List AP) : List AP := cands.foldr (insertSorted (before pref)) []
 
-/-- relays: key = family then value (`netip.Addr.Compare`). -/
-def relayKey (a : Addr) : Nat := (if a.fam == .v6 then 1 else 0) * 2 ^ 128 + a.val
-
+/-- relays: `netip.Addr.Compare` order (family, then value). -/
 def IsRelayList (reported : List Addr) (l : List Addr) : Prop :=
-  l.Nodup ∧ (∀ x, x ∈ l ↔ x ∈ reported) ∧ l.Pairwise (fun a b => relayKey a < relayKey b)
+  l.Nodup ∧ (∀ x, x ∈ l ↔ x ∈ reported) ∧ l.Pairwise (fun a b => a.lt b = true)
 
-def refRelays (reported : List Addr) : List Addr := reported.foldr (insertSorted relayKey) []
+def refRelays (reported : List Addr) : List Addr := reported.foldr (insertSorted Addr.lt) []
 
 end Nebula.Spec.RemoteList
